@@ -347,6 +347,9 @@ func (m *memoryEvictor) calculateReleaseByAllocatableThresholdPercent(thresholdC
 		// currently only support koord-batch/koord-mid
 		if class, ok := apiext.ReverseResourceNameMap[r]; ok {
 			prioritiesMp[class] = true
+		} else {
+			// no pod can be accounted against this resource: a target for it could never be met
+			delete(overall, r)
 		}
 	}
 	calculateFunc = func(podInfo *qosmanagerUtil.PodEvictInfo) corev1.ResourceList {
